@@ -117,6 +117,19 @@ impl<A: WindowAccumulator> EventTimeWindowManager<A> {
 }
 '''
 
+HINT_DIV = r'''
+            proof {
+                // rounding down to a multiple of slide: 0 <= (a / slide) * slide <= a   (a = distance to the watermark)
+                if self.last_watermark is Some {
+                    let d = self.slide as int;
+                    let a = if self.last_watermark->0 - next_start >= 0 { (self.last_watermark->0 - next_start) as int } else { 0int };
+                    vstd::arithmetic::div_mod::lemma_fundamental_div_mod(a, d);
+                    vstd::arithmetic::div_mod::lemma_mod_bound(a, d);
+                    assert(d * (a / d) == (a / d) * d) by (nonlinear_arith);
+                    assert(a / d >= 0) by (nonlinear_arith) requires a >= 0, d >= 1, d * (a / d) + a % d == a, 0 <= a % d < d;
+                    assert((a / d) * d >= 0) by (nonlinear_arith) requires a / d >= 0, d >= 1;
+                }
+            }'''
 ALLOC_SPEC = r'''
         requires old(self).inv(), bounded(ts as int),
             old(self).last_watermark matches Some(w) ==> ts >= w,
@@ -243,16 +256,8 @@ def build(x):
     al.annotate_closure('self.ws.back().map(', 'b: &Slot<A>', 'ns: Timestamp', 'ns == b.start + self.slide', nth=2, requires='-B <= b.start <= B + SLACK && 1 <= self.slide <= 0x100_0000_0000', obl='alloc.next_start_is_previous_plus_slide')
     al.add_spec(ALLOC_SPEC)
     al.add_loop_spec(1, ALLOC_INV)
+    al.insert_after_stmt('let mut next_start', HINT_DIV)
     al.insert_before('let mut next_start', 'proof { if self.ws@.len() > 0 { assert(self.slot_ok(self.ws@.len() - 1)); } }\n            let ghost before = *self;\n            ')
-    al.insert_after('if let Some(w) = self.last_watermark {', '''
-                proof {
-                    let a = if w - next_start >= 0 { (w - next_start) as int } else { 0int };
-                    vstd::arithmetic::div_mod::lemma_fundamental_div_mod(a, self.slide as int);
-                    vstd::arithmetic::div_mod::lemma_mod_bound(a, self.slide as int);
-                    assert(self.slide as int * (a / self.slide as int) == (a / self.slide as int) * self.slide as int) by (nonlinear_arith);
-                    assert(a / (self.slide as int) >= 0) by (nonlinear_arith) requires a >= 0, self.slide >= 1, self.slide as int * (a / self.slide as int) + a % (self.slide as int) == a, 0 <= a % (self.slide as int) < self.slide;
-                    assert((a / self.slide as int) * self.slide as int >= 0) by (nonlinear_arith) requires a / (self.slide as int) >= 0, self.slide >= 1;
-                }''')
     al.insert_before('self.ws.push_back(Slot::new(', 'let ghost ns = next_start;\n            ')
     al.insert_after_stmt('self.ws.push_back(Slot::new(', '''
             proof {
@@ -285,7 +290,7 @@ def build(x):
                         forall|k: int| (0 <= k < i0 || __i <= k < self.ws@.len()) ==> (#[trigger] self.ws@[k]) == mid.ws@[k],
                     decreases self.ws@.len() - __i,
 ''')
-    pr.insert_before('Vec::new()\n            }\n            StreamElement::Watermark', HINT_ELEMENT_END)
+    pr.insert_after('/*@foreach_end*/', '\n                ' + HINT_ELEMENT_END)
     pr.insert_after('self.last_watermark = Some(ts);', '\n                let ghost mid = *self;\n                proof { mid.lemma_inv_raise_watermark(old(self)); mid.lemma_all_mono(); }')
     pr.add_loop_spec(3, r'''
             invariant split <= self.ws@.len(), *self == mid,
@@ -297,7 +302,7 @@ def build(x):
                     self.same_params(&mid), self.last_watermark == mid.last_watermark,
                 decreases split - __j,
 ''')
-    pr.insert_before('__out }\n            }', HINT_WM_END)
+    pr.insert_after('/*@drain_end*/', '\n            ' + HINT_WM_END, nth=1)
     pr.add_loop_spec(5, r'''
                 invariant self.ws@.len() <= old(self).ws@.len(), self.ws@ =~= old(self).ws@.skip(old(self).ws@.len() - self.ws@.len()),
                     __out@ == fired(old(self).ws@, old(self).ws@.len() - self.ws@.len()),
